@@ -50,8 +50,9 @@ type MRpcMethod struct {
 	Params, Result                string
 }
 type MRpc struct {
-	Path    string
-	Methods []MRpcMethod
+	ProtoPos int // how many Method directives precede the Protocol directive inside the URL
+	Path     string
+	Methods  []MRpcMethod
 }
 
 type Model struct {
@@ -223,6 +224,9 @@ func GenModel(p *PRNG, size int) *Model {
 	}
 	if p.Chance(1, 5) {
 		rp := MRpc{Path: fmt.Sprintf("/rpc%d", p.Intn(3))}
+		if p.Chance(1, 3) {
+			rp.ProtoPos = 1 + p.Intn(2)
+		}
 		if !usedPaths[rp.Path] {
 			for j := 1 + p.Intn(2); j > 0; j-- {
 				rm := MRpcMethod{Name: fmt.Sprintf("m%d", j)}
@@ -356,7 +360,7 @@ func genObjectSchema(p *PRNG, m *Model, depth int, allowRefs bool) Schema {
 			case k == 5 && allowRefs && len(m.Types) > 1:
 				t1, t2 := Pick(p, m.Types).Name, Pick(p, m.Types).Name
 				uses = append(uses, t1, t2)
-				b.WriteString("@" + t1 + " | @" + t2 + sep + "\n")
+				b.WriteString("@" + t1 + Pick(p, []string{" | ", "|", " |", "| "}) + "@" + t2 + sep + "\n")
 			default:
 				b.WriteString(genScalar(p) + sep + "\n")
 			}
@@ -554,8 +558,12 @@ func ModelTree(m *Model) []*DNode {
 	}
 	for _, r := range m.Rpc {
 		u := &DNode{Keyword: "URL", Params: []string{r.Path}}
-		u.Kids = append(u.Kids, &DNode{Keyword: "Protocol", Params: []string{"json-rpc-2.0"}})
-		for _, mm := range r.Methods {
+		proto := &DNode{Keyword: "Protocol", Params: []string{"json-rpc-2.0"}}
+		for i, mm := range r.Methods {
+			if i == r.ProtoPos {
+				u.Kids = append(u.Kids, proto)
+				proto = nil
+			}
 			n := &DNode{Keyword: "Method", Params: []string{mm.Name}, Ann: mm.Annotation}
 			if mm.Description != "" {
 				n.Kids = append(n.Kids, &DNode{Keyword: "Description", Body: mm.Description, BodyKind: "text"})
@@ -570,6 +578,9 @@ func ModelTree(m *Model) []*DNode {
 				n.Kids = append(n.Kids, &DNode{Keyword: "Result", Body: mm.Result, BodyKind: "schema"})
 			}
 			u.Kids = append(u.Kids, n)
+		}
+		if proto != nil {
+			u.Kids = append(u.Kids, proto)
 		}
 		out = append(out, u)
 	}
